@@ -12,6 +12,7 @@ import GoImap.Drive.C14
 import GoImap.Drive.C17
 import GoImap.Drive.C03
 import GoImap.Drive.C10
+import GoImap.Drive.C04
 open GoImap
 
 /-- one case per input line, tab-separated; the first field names the property -/
@@ -31,6 +32,7 @@ def dispatch (line : String) : String :=
   | "C17" :: rest => DriveC17.handle rest
   | "C03" :: rest => DriveC03.handle rest
   | "C10" :: rest => DriveC10.handle rest
+  | "C04" :: rest => DriveC04.handle rest
   | _ => "?\t0\tfail:unknown-property\t-"
 
 partial def loop (hin hout : IO.FS.Stream) : IO Unit := do
